@@ -14,6 +14,7 @@ import (
 	"encoding/json"
 	"fmt"
 	"go/ast"
+	"go/build"
 	"go/constant"
 	"go/importer"
 	"go/parser"
@@ -324,9 +325,251 @@ func main() {
 		}
 		out["stats_key_literals"] = lits
 	}
+	magicScan(fset, imp, repo, out, consts)
 	out["structs"] = structs
 	out["consts"] = consts
 	enc := json.NewEncoder(os.Stdout)
 	enc.SetIndent("", " ")
 	_ = enc.Encode(out)
+}
+
+
+// magicScan type-checks the whole stub-build package control (errors ignored, non-std imports faked) and reports every
+// use of a field of a kernel-mirror struct (a field declared in control/bpf_stub.go) against a constant: comparisons,
+// switch cases, assignments and composite-literal elements.  A constant written as an integer literal is a "magic
+// number" mirror of a kernel enumeration.
+func magicScan(fset *token.FileSet, imp types.Importer, repo string, out node, consts map[string]string) {
+	dir := filepath.Join(repo, "control")
+	ctx := build.Default
+	ctx.GOOS, ctx.GOARCH = "linux", "amd64"
+	ctx.BuildTags = []string{"dae_stub_ebpf"}
+	ents, err := os.ReadDir(dir)
+	if err != nil {
+		fmt.Fprintln(os.Stderr, "readdir", err)
+		os.Exit(2)
+	}
+	files := []*ast.File{}
+	for _, e := range ents {
+		n := e.Name()
+		if !strings.HasSuffix(n, ".go") || strings.HasSuffix(n, "_test.go") {
+			continue
+		}
+		if ok, _ := ctx.MatchFile(dir, n); !ok {
+			continue
+		}
+		f, err := parser.ParseFile(fset, filepath.Join(dir, n), nil, parser.ParseComments)
+		if err != nil {
+			fmt.Fprintln(os.Stderr, "parse", n, err)
+			os.Exit(2)
+		}
+		files = append(files, f)
+	}
+	info := &types.Info{Types: map[ast.Expr]types.TypeAndValue{}, Defs: map[*ast.Ident]types.Object{}, Uses: map[*ast.Ident]types.Object{},
+		Selections: map[*ast.SelectorExpr]*types.Selection{}}
+	conf := types.Config{Importer: imp, Error: func(error) {}, Sizes: types.SizesFor("gc", "amd64")}
+	pkg, _ := conf.Check("control", fset, files, info)
+	// field objects of the mirror structs -> "Type.Path"
+	fieldName := map[*types.Var]string{}
+	var walk func(prefix string, t types.Type)
+	walk = func(prefix string, t types.Type) {
+		st, ok := t.Underlying().(*types.Struct)
+		if !ok {
+			return
+		}
+		for i := 0; i < st.NumFields(); i++ {
+			f := st.Field(i)
+			if f.Name() == "_" {
+				continue
+			}
+			fieldName[f] = prefix + "." + f.Name()
+			if _, ok := f.Type().(*types.Named); !ok {
+				walk(prefix+"."+f.Name(), f.Type())
+			}
+		}
+	}
+	for _, n := range pkg.Scope().Names() {
+		tn, ok := pkg.Scope().Lookup(n).(*types.TypeName)
+		if !ok || !strings.HasSuffix(fset.Position(tn.Pos()).Filename, "bpf_stub.go") {
+			continue
+		}
+		if translatable(tree(tn.Type())) {
+			walk(n, tn.Type())
+		}
+	}
+	for _, n := range pkg.Scope().Names() {
+		if c, ok := pkg.Scope().Lookup(n).(*types.Const); ok && c.Val().Kind() == constant.Int {
+			if strings.Contains(n, "ConnStateTimeout") {
+				consts["control.pkg."+n] = c.Val().ExactString()
+			}
+		}
+	}
+	strip := func(e ast.Expr) ast.Expr {
+		for {
+			switch x := e.(type) {
+			case *ast.ParenExpr:
+				e = x.X
+			case *ast.CallExpr: // conversion T(x)
+				if len(x.Args) == 1 {
+					if tv, ok := info.Types[x.Fun]; ok && tv.IsType() {
+						e = x.Args[0]
+						continue
+					}
+				}
+				return e
+			default:
+				return e
+			}
+		}
+	}
+	fieldOf := func(e ast.Expr) string {
+		se, ok := strip(e).(*ast.SelectorExpr)
+		if !ok {
+			return ""
+		}
+		if sel, ok := info.Selections[se]; ok {
+			if v, ok := sel.Obj().(*types.Var); ok {
+				return fieldName[v]
+			}
+		}
+		return ""
+	}
+	exprText := func(e ast.Expr) string {
+		b := fset.Position(e.Pos()).Offset
+		en := fset.Position(e.End()).Offset
+		data, _ := os.ReadFile(fset.Position(e.Pos()).Filename)
+		if b >= 0 && en <= len(data) && b < en {
+			return string(data[b:en])
+		}
+		return ""
+	}
+	idents := func(n ast.Node) []string {
+		seen := map[string]bool{}
+		res := []string{}
+		if n == nil {
+			return res
+		}
+		ast.Inspect(n, func(x ast.Node) bool {
+			if id, ok := x.(*ast.Ident); ok && !seen[id.Name] {
+				seen[id.Name] = true
+				res = append(res, id.Name)
+			}
+			return true
+		})
+		return res
+	}
+	uses := []node{}
+	record := func(kind, field, op string, c ast.Expr, fn string, thenN, elseN ast.Node) {
+		u := node{"kind": kind, "field": field, "op": op, "text": exprText(c), "func": fn,
+			"file": "control/" + filepath.Base(fset.Position(c.Pos()).Filename), "line": fset.Position(c.Pos()).Line,
+			"then": idents(thenN), "else": idents(elseN)}
+		_, isLit := strip(c).(*ast.BasicLit)
+		u["literal"] = isLit
+		if tv, ok := info.Types[c]; ok && tv.Value != nil && (tv.Value.Kind() == constant.Int || tv.Value.Kind() == constant.Bool) {
+			u["value"] = tv.Value.ExactString()
+		} else {
+			u["value"] = ""
+		}
+		uses = append(uses, u)
+	}
+	isConstish := func(e ast.Expr) bool {
+		e = strip(e)
+		if _, ok := e.(*ast.BasicLit); ok {
+			return true
+		}
+		if tv, ok := info.Types[e]; ok && tv.Value != nil {
+			return true
+		}
+		// qualified identifier of a faked package (unix.IPPROTO_TCP): upper-case selector on a package name
+		if se, ok := e.(*ast.SelectorExpr); ok {
+			if id, ok := se.X.(*ast.Ident); ok {
+				if _, ok := info.Uses[id].(*types.PkgName); ok {
+					return true
+				}
+			}
+		}
+		if id, ok := e.(*ast.Ident); ok && (id.Name == "true" || id.Name == "false") {
+			return true
+		}
+		return false
+	}
+	for _, f := range files {
+		var stack []ast.Node
+		fn := ""
+		ast.Inspect(f, func(x ast.Node) bool {
+			if x == nil {
+				stack = stack[:len(stack)-1]
+				return true
+			}
+			stack = append(stack, x)
+			switch n := x.(type) {
+			case *ast.FuncDecl:
+				fn = n.Name.Name
+			case *ast.BinaryExpr:
+				switch n.Op {
+				case token.EQL, token.NEQ, token.LSS, token.LEQ, token.GTR, token.GEQ, token.AND:
+					for _, pr := range [][2]ast.Expr{{n.X, n.Y}, {n.Y, n.X}} {
+						if fld := fieldOf(pr[0]); fld != "" && isConstish(pr[1]) {
+							var thenN, elseN ast.Node
+							for i := len(stack) - 1; i >= 0; i-- {
+								if is, ok := stack[i].(*ast.IfStmt); ok && is.Cond.Pos() <= n.Pos() && n.End() <= is.Cond.End() {
+									thenN = is.Body
+									if is.Else != nil {
+										elseN = is.Else
+									}
+									break
+								}
+							}
+							record("cmp", fld, n.Op.String(), pr[1], fn, thenN, elseN)
+						}
+					}
+				}
+			case *ast.SwitchStmt:
+				if n.Tag != nil {
+					if fld := fieldOf(n.Tag); fld != "" {
+						for _, cc := range n.Body.List {
+							cl := cc.(*ast.CaseClause)
+							for _, e := range cl.List {
+								if isConstish(e) {
+									record("case", fld, "==", e, fn, cl, nil)
+								}
+							}
+						}
+					}
+				}
+			case *ast.AssignStmt:
+				if len(n.Lhs) == len(n.Rhs) {
+					for i := range n.Lhs {
+						if fld := fieldOf(n.Lhs[i]); fld != "" && isConstish(n.Rhs[i]) {
+							record("assign", fld, "=", n.Rhs[i], fn, nil, nil)
+						}
+					}
+				}
+			case *ast.CompositeLit:
+				if tv, ok := info.Types[n]; ok {
+					if st, ok := tv.Type.Underlying().(*types.Struct); ok {
+						for _, el := range n.Elts {
+							kv, ok := el.(*ast.KeyValueExpr)
+							if !ok {
+								continue
+							}
+							id, ok := kv.Key.(*ast.Ident)
+							if !ok {
+								continue
+							}
+							for i := 0; i < st.NumFields(); i++ {
+								if st.Field(i).Name() == id.Name {
+									if fld := fieldName[st.Field(i)]; fld != "" && isConstish(kv.Value) {
+										record("composite", fld, "=", kv.Value, fn, nil, nil)
+									}
+								}
+							}
+						}
+					}
+				}
+			}
+			return true
+		})
+	}
+	out["magic_uses"] = uses
+	out["mirror_fields"] = len(fieldName)
 }
